@@ -656,7 +656,8 @@ def p_pds_triple(repo, et):
     return [Pred("pds_triple", "C17", [], pairs, ir,
                  ref(src, tests[0], "pds: the test that lets the search go on from (prev_node, this_node) to next_node") +
                  " (flags L%d, L%d)" % (a1[0].lineno, a2[0].lineno),
-                 "is_def_collider or is_triangle ; next_node ranges over graph.neighbors(this_node)")], tests[0].lineno
+                 "is_def_collider or is_triangle ; next_node ranges over graph.neighbors(this_node)")], \
+        (tests[0].lineno, tests[0].body[0].lineno, tests[0].body[-1].end_lineno)
 
 
 def p_is_collider(repo, et):
